@@ -1,5 +1,6 @@
 from random import random
 from math import isinf, nan
+from numbers import Real
 import networkx as nx
 from .auxiliary import random_choice, flatten_list
 from .data_record import DataRecord
@@ -674,7 +675,10 @@ class Node(object):
         """
         Returns a service time for the given customer class.
         """
-        return self.simulation.service_times[self.id_number][ind.customer_class].sample(t=self.now, ind=ind)
+        service_time = self.simulation.service_times[self.id_number][ind.customer_class].sample(t=self.now, ind=ind)
+        if isinstance(service_time, Real) and service_time >= 0:
+            return service_time
+        raise ValueError("Invalid time sampled.")
 
     def take_servers_off_duty(self, preemption=False):
         """
